@@ -42,7 +42,9 @@ where
             if buf.capacity() == buf.len() {
                 buf.reserve(std::cmp::min(size - buf.len(), MAX_PREALLOCATE));
             }
-            if self.0.read_buf(&mut buf).await? == 0 {
+            // Read no further than what was asked for, whatever spare capacity the buffer has.
+            let missing = (size - buf.len()) as u64;
+            if (&mut self.0).take(missing).read_buf(&mut buf).await? == 0 {
                 return Err(io::ErrorKind::UnexpectedEof.into());
             }
         }
